@@ -26,7 +26,7 @@ FLOORS = {'quick': {'lu_factor': 150, 'lu_solve': 150, 'matrix_inverse': 100, 'm
                     'matrix_pivot': 300, 'matrix_identity': 300, 'same-args-same-result': 500, 'helper': 1000,
                     'lu_solve_must_return': 60},
           'thorough': {'lu_factor': 1500, 'lu_solve': 1500, 'matrix_inverse': 1000, 'same-args-same-result': 5000}}
-MANDATORY_TAGS = ['size8', 'size1', 'edit-in-place', 'swaps>=2', 'zero-diagonal', 'diag-dominant', 'collocation', 'float-entries', 'residue-pivot', 'prepivot-breakdown',
+MANDATORY_TAGS = ['scaled-entries', 'size8', 'size1', 'edit-in-place', 'swaps>=2', 'zero-diagonal', 'diag-dominant', 'collocation', 'float-entries', 'residue-pivot', 'prepivot-breakdown',
                   'rational-entries']
 TECHNIQUE = ("runtime monitoring: all-call post-condition hooks on geomdl.linalg with exact-arithmetic residual oracles, plus an "
              "online call-log checker (same arguments => bit-identical result) over randomized call histories")
@@ -560,6 +560,12 @@ def check_history(case, ctx):
     for n in case['sizes']:
         cls = rng.choice(classes)
         A = rand_matrix(rng, n, cls)
+        if rng.random() < 0.15:
+            # the same matrix in other units (an exact power of two): entries and pivots of 1e-9 .. 1e-12 or 1e9 are as good as those of
+            # order one - nothing about a linear system is absolute
+            s_ = rng.choice([2.0 ** -30, 2.0 ** -40, 2.0 ** 30])
+            A = [[x * s_ for x in row] for row in A]
+            ctx.tag('scaled-entries')
         pool.append((A, cls))
         ctx.tag('size%d' % n)
         sw = n_swaps(A)
